@@ -275,7 +275,7 @@ SEQ_KINDS = ["tuple", "slice", "vec", "arr"]
 
 def gen_cases(ctx):
     rng = ctx.rng
-    n = ctx.scale(5000, 300000)
+    n = ctx.scale(5000, 600000)
     cases = [parse_corpus(l) for l in CORPUS]
     # ---- exhaustive: every failure point of fixed values, at every position of a short history, both builders
     fixed = [[1, {"a": [True, "x"]}, None], {"k": {"q": []}, "z": "\n"}, "s€", [], {}, 7, [[], [{}]]]
